@@ -14,7 +14,7 @@ def main(ck):
     pr = ck.proof('C01', extra_modules=())
     q = ck.quick()
     res = []
-    res += CC.run_stream(ck, 'single-operator', 250 if q else 3000, dict(allow=ELEMENT), dict(depth=1))
+    res += CC.run_stream(ck, "single-operator", int(os.environ.get("VERIF_N", 250)) if q else 3000, dict(allow=ELEMENT), dict(depth=1))
     res += CC.run_stream(ck, 'multi-statement', 250 if q else 3000, dict(allow=ELEMENT | {'filter'}, flat=True))
     res += CC.run_stream(ck, 'nested', 200 if q else 3000, dict(allow=ELEMENT | {'filter'}))
     hist = CC.report(ck, res)
